@@ -375,6 +375,46 @@ Definition rich_Hd (hasbreak : cell -> bool) (input : list cell) (p : nat) : boo
   | S q => match nth_error input q with Some a => hasbreak a | None => false end
   end.
 
+(* ---------- the hypotheses of the theorems, decidable on a case ---------- *)
+
+(* widths are non-negative and add up to less than 65536 (the scanners add in uint16) *)
+Definition text_ok_b (input : list cell) (W : Z) : bool :=
+  (0 <=? W) && (W <? 65536) && forallb (fun c => 0 <=? c_width c) input && (sumw input <? 65536).
+
+(* whitespace-only cell *)
+Definition ws_runes (c : cell) : bool := forallb go_isspace (c_runes c).
+
+(* a cluster of plain text: if it ends in whitespace it is all whitespace, and if it ends in a
+   line break, what is left after cutting that rune is whitespace *)
+Definition plain_cell_ok (c : cell) : bool :=
+  (negb (cell_is_space c) || ws_runes c) &&
+  (negb (cell_hasbreak c) || forallb (fun r => cell_is_space r && ws_runes r) (plain_residue c)).
+
+(* the segment that reaches the end of the text is reported with mustBreak *)
+Definition tbl_end_ok_b (N : nat) (tbl : plain_tbl) : bool :=
+  forallb (fun e : (Z * Z) * (Z * bool * Z) =>
+             let '((i, _), (n, br, _)) := e in negb (Z.of_nat N <=? i + n) || br) tbl.
+
+(* every answer in the table ends at the next break opportunity of B and reports mustBreak
+   exactly at the end of the text and at the positions of Hd *)
+Definition tbl_consistent_b (N : nat) (B Hd : nat -> bool) (tbl : plain_tbl) : bool :=
+  forallb (fun e : (Z * Z) * (Z * bool * Z) =>
+             let '((i, _), (n, br, _)) := e in
+             if (0 <=? i) && (0 <? n) && (i + n <=? Z.of_nat N) then
+               let e' := Z.to_nat (i + n) in
+               (Nat.eqb e' N || B e') &&
+               forallb (fun q => negb (B q)) (seq (S (Z.to_nat i)) (Z.to_nat n - 1)) &&
+               Bool.eqb br (Nat.eqb e' N || Hd e')
+             else true) tbl.
+
+(* all hypotheses of the plain theorems for one case (B and Hd read off the table) *)
+Definition plain_hyps_b (input : list cell) (tbl : plain_tbl) : bool :=
+  forallb plain_cell_ok input && tbl_end_ok_b (length input) tbl &&
+  match plain_breaks (S (length input)) (tbl_orc tbl) (Z.of_nat (length input)) 0 (-1) with
+  | None => false
+  | Some bl => tbl_consistent_b (length input) (B_of_list bl) (Hd_of_list bl) tbl
+  end.
+
 (* ---------- correspondence ---------- *)
 
 Fixpoint list_eqb2 {A B} (eqb : A -> B -> bool) (a : list A) (b : list B) : bool :=
@@ -411,9 +451,13 @@ Definition plain_run_mismatch (input : list cell) (tbl : plain_tbl) (r : run_t) 
   negb ((outcome_code o =? code)
         && list_eqb2 (fun a b => zlist_eqb (flat (fst a)) (flat (fst b)) && (Z.of_nat (snd a) =? snd b)) ls obs).
 
+(* besides model = implementation, a case must satisfy the hypotheses of the theorems that do
+   not depend on the break sets (the library tables, the text bound, well-formed clusters) *)
 Definition plain_case_mismatch (k : plain_case) : bool :=
   let '(input, tbl, (sp, bk), runs) := k in
-  negb (flags_ok input sp bk) || existsb (plain_run_mismatch input tbl) runs.
+  negb (flags_ok input sp bk && forallb plain_cell_ok input && tbl_end_ok_b (length input) tbl
+        && forallb (fun r : run_t => text_ok_b input (fst (fst r))) runs)
+  || existsb (plain_run_mismatch input tbl) runs.
 
 Definition plain_case_violation (k : plain_case) : bool :=
   let '(input, tbl, (sp, bk), runs) := k in
@@ -439,7 +483,8 @@ Definition rich_run_mismatch (input : list cell) (tbl : pair_tbl) (r : run_t) : 
 
 Definition rich_case_mismatch (k : rich_case) : bool :=
   let '(input, tbl, (sp, bk), runs) := k in
-  negb (flags_ok input sp bk) || existsb (rich_run_mismatch input tbl) runs.
+  negb (flags_ok input sp bk && forallb (fun r : run_t => text_ok_b input (fst (fst r))) runs)
+  || existsb (rich_run_mismatch input tbl) runs.
 
 Definition rich_case_violation (k : rich_case) : bool :=
   let '(input, tbl, (sp, bk), runs) := k in
